@@ -85,7 +85,7 @@ Mul(a, b) == LET g1 == Gcd(Abs(a[1]), b[2])
                 ELSE <<(a[1] \div g1) * (b[1] \div g2), (a[2] \div g2) * (b[2] \div g1)>>
 Inv(a) == IF a[1] < 0 THEN <<-a[2], -a[1]>> ELSE <<a[2], a[1]>>
 Div(a, b) == Mul(a, Inv(b))
-Lt(a, b) == a[1] * b[2] < b[1] * a[2]
+Lt(a, b) == LET g == Gcd(a[2], b[2]) IN a[1] * (b[2] \div g) < b[1] * (a[2] \div g)
 AbsQ(a) == <<Abs(a[1]), a[2]>>
 Sq(a) == Mul(a, a)
 \* floor of the square root of a natural; exact rational square roots
@@ -203,8 +203,8 @@ Position(hd, w, h, lev) ==
        ELSE IF det[1] = 0 THEN [out |-> "raises", why |-> "determinant"]
        ELSE IF ~(IsSquareQ(sx2) /\ IsSquareQ(sy2)) THEN [out |-> "irrational", why |-> "scale"]     \* outside exact arithmetic: not replayed
        ELSE IF Lt(Mul(Tol, Add(sx, sy)), AbsQ(Sub(sx, sy))) THEN [out |-> "raises", why |-> "non-square"]
-       ELSE IF Lt(Mul(Sq(Tol), AbsQ(det)), Sq(t1)) THEN [out |-> "raises", why |-> "cd1"]
-       ELSE IF Lt(Mul(Sq(Tol), AbsQ(det)), Sq(t2)) THEN [out |-> "raises", why |-> "cd2"]
+       ELSE IF Lt(AbsQ(det), Mul(I(400), Sq(t1))) THEN [out |-> "raises", why |-> "cd1"]              \* |t1| / sqrt|det| > 1/20
+       ELSE IF Lt(AbsQ(det), Mul(I(400), Sq(t2))) THEN [out |-> "raises", why |-> "cd2"]
        ELSE IF lev > 0
             THEN [out |-> "ok", why |-> "", proj |-> "Tan", bu |-> FALSE, lev |-> lev, cx |-> hd.crval[1], cy |-> hd.crval[2], dir |-> dir0,
                   bdpt |-> Mul(sy, I(256 * (2 ^ lev))),
